@@ -74,8 +74,11 @@ func newKeyShortcutAdditionalProperties(astNode schema.ASTNode) *AdditionalPrope
 	for _, an := range astNode.Children {
 		if an.IsKeyShortcut {
 			if hasAdditionalPropertiesRule {
+				// ("enum" and "mixed" without their list of values / alternatives
+				// do not restrict anything, see newStringAdditionalProperties)
 				if (ap.TokenType == schema.TokenTypeBoolean && ap.Value == internal.StringTrue) ||
-					(ap.TokenType == schema.TokenTypeString && ap.Value == internal.StringAny) {
+					(ap.TokenType == schema.TokenTypeString && (ap.Value == internal.StringAny ||
+						ap.Value == string(schema.SchemaTypeEnum) || ap.Value == string(schema.SchemaTypeMixed))) {
 					return nil
 				}
 			}
